@@ -148,3 +148,99 @@ theorem construct_defaults_ok (c : Ctx) (ty : Int) (d : Dict)
     exact ⟨_, rfl⟩
 
 end Aoe.Versions
+
+namespace Aoe.Versions
+
+theorem dget_filter_pred (d : Dict) (P : Nat × Val → Bool) (k : Nat) (hk : ∀ v, P (k, v) = true) :
+    dget (d.filter P) k = dget d k := by
+  induction d with
+  | nil => rfl
+  | cons a r ih =>
+    obtain ⟨k', v⟩ := a
+    by_cases hp : P (k', v) = true
+    · simp only [List.filter_cons, hp, if_true, dget_cons, ih]
+    · have hne : ¬ k' = k := fun e => hp (e ▸ hk v)
+      simp only [List.filter_cons, hp, Bool.false_eq_true, if_false, dget_cons, ih, hne]
+
+theorem dget_map_fix (d : Dict) (g : Nat × Val → Nat × Val) (k : Nat) (h1 : ∀ kv, (g kv).1 = kv.1)
+    (h2 : ∀ v, (g (k, v)).2 = v) : dget (d.map g) k = dget d k := by
+  induction d with
+  | nil => rfl
+  | cons a r ih =>
+    obtain ⟨k', v⟩ := a
+    have e : g (k', v) = ((g (k', v)).1, (g (k', v)).2) := rfl
+    rw [List.map_cons, e, dget_cons, dget_cons, ih, h1]
+    by_cases hk : k' = k
+    · subst hk; simp [h2]
+    · simp [hk]
+
+/-- the attribute names the constructors may rewrite (everything else is stored as handed over) -/
+def special (N : AttrNames) : List Nat :=
+  [N.selectedIds, N.aaClass, N.aaQuantity, N.quantity, N.varAttr, N.x1, N.x2, N.y1, N.y2, N.locRef,
+   N.itemId, N.legacyLoc, N.variableRef]
+
+/-- **the constructors store every ordinary argument unchanged**: an attribute that is not one of the few the
+constructor normalises (`special`: selected ids, the armour/attack group, the area corners, the location reference
+and the three pseudo attributes) reads back exactly the value of the keyword dict -/
+theorem construct_other_attrs {c : Ctx} {kw o : Dict} (hinit : ∀ k ∈ dkeys kw, k ∈ c.sig.initParams)
+    (h : construct c kw = .ok o) {k : Nat} (hk : k ∉ special c.names) : dget o k = dget kw k := by
+  have hb : bindKw c.sig kw = .ok kw := bindKw_id hinit
+  simp only [special, List.mem_cons, List.mem_nil_iff, or_false, not_or] at hk
+  obtain ⟨k1, k2, k3, k4, k5, k6, k7, k8, k9, k10, k11, k12, k13⟩ := hk
+  unfold construct at h
+  by_cases he : c.isEffect = true
+  · simp only [he, if_true] at h
+    cases hi : effectInit c.sig c.names c.fam c.width c.emptyStr kw with
+    | error e => simp [hi] at h
+    | ok r =>
+      simp only [hi, Except.ok.injEq] at h
+      subst h
+      simp only [effectInit, hb] at hi
+      by_cases hint : (!c.sig.intRequired.all (fun n => isInt (par kw n))) = true
+      · simp [hint] at hi
+      · simp only [hint, Bool.false_eq_true, if_false] at hi
+        simp only [effectBody] at hi
+        cases ha : aaStep (source c.fam (par kw c.sig.typeKey) (par kw c.names.objectAttributes)) c.width c.emptyStr
+            (par kw c.names.aaClass) (par kw c.names.aaQuantity) (par kw c.names.quantity) (par kw c.names.varAttr)
+            (par kw c.names.variableRef) with
+        | error e => simp [ha] at hi
+        | ok q4 =>
+          obtain ⟨cls, qty, q, var1⟩ := q4
+          simp only [ha] at hi
+          cases hc : coords kw c.names with
+          | error e => simp [hc] at hi
+          | ok cc =>
+            obtain ⟨⟨x1, x2⟩, ⟨y1, y2⟩⟩ := cc
+            simp only [hc, Except.ok.injEq] at hi
+            subst hi
+            unfold effectObs
+            rw [dget_filter_pred _ _ k (by intro v; simp [nbeq_eq_decide, k11, k12, k13, k4])]
+            exact dget_map_fix _ _ _ (fun _ => rfl)
+              (by intro v; simp [nbeq_eq_decide, k1, k2, k3, k4, k5, k6, k7, k8, k9, k10])
+  · simp only [he, Bool.false_eq_true, if_false, condInit, hb] at h
+    by_cases hint : (!c.sig.intRequired.all (fun n => isInt (par kw n))) = true
+    · simp [hint] at h
+    · simp only [hint, Bool.false_eq_true, if_false] at h
+      cases hc : coords kw c.names with
+      | error e => simp [hc] at h
+      | ok cc =>
+        obtain ⟨⟨x1, x2⟩, ⟨y1, y2⟩⟩ := cc
+        simp only [hc, Except.ok.injEq] at h
+        subst h
+        exact dget_map_fix _ _ _ (fun _ => rfl) (by intro v; simp [nbeq_eq_decide, k6, k7, k8, k9])
+
+/-- an ordered pair of set coordinates passes `validate_coords` unchanged -/
+theorem coordAxis_id {x y : Int} (hxy : x ≤ y) (hfill : ¬ (x ≠ -1 ∧ y = -1)) :
+    coordAxis (.int x) (.int y) = .ok (.int x, .int y) := by
+  unfold coordAxis
+  have h1 : (valid (.int x) && !valid (.int y)) = false := by
+    simp only [valid, ibeq_eq_decide, Bool.and_eq_false_imp, Bool.not_eq_true', decide_eq_false_iff_not,
+      Bool.not_eq_false', decide_eq_true_eq, Bool.not_not]
+    intro hx
+    by_cases hy : y = -1
+    · exact absurd ⟨hx, hy⟩ hfill
+    · simpa using hy
+  have h2 : ¬ x > y := by omega
+  simp [h1, h2]
+
+end Aoe.Versions
